@@ -94,9 +94,9 @@ def _tlc_all(tier, seed, v):
         alphabet = classes["Dollars"] + classes["Blanks"] + classes["Newlines"] + classes["Others"]
         last = alphabet
         if sliced:
-            last = rng.sample(alphabet, max(2, len(alphabet) // (6 if tier == "quick" else 3)))
+            last = rng.sample(alphabet, max(2, len(alphabet) // (6 if tier == "quick" else 10)))
         plan[name] = _text_cfg(prefix, classes, lq if tier == "quick" else lt, last)
-    plan["rec"] = _rec_cfg(2 if tier == "quick" else 3, 1 if tier == "quick" else 2)
+    plan["rec"] = _rec_cfg(2, 1 if tier == "quick" else 2)
     out: dict = {}
     ths = [threading.Thread(target=_run, args=(n, c, out, 3 if n != "rec" else 6)) for n, c in plan.items()]
     for t in ths:
@@ -112,7 +112,12 @@ def _tlc_all(tier, seed, v):
             raise core.MachineryError(f"Stream.tla profile {n}: design-level invariant {res.violated} violated:\n" + "\n".join(res.trace[-2:])[:3000])
         if n == "rec":
             core.require_actions(res, [("DoVary", "Vary"), ("DoStartEdit", "StartEdit"), ("DoOp", "Op")], "Stream.tla rec")
-            layouts = [c for tag, c in res.prints if tag == "LAYOUT"]
+            seen = set()
+            for tag, c in res.prints:
+                key = (tuple(c["kinds"]), c["edit"]) if tag == "LAYOUT" else None
+                if key and key not in seen:
+                    seen.add(key)
+                    layouts.append(c)
         else:
             core.require_actions(res, [("DoDollar", "DoBlank", "DoNewline", "DoOther", "AppendTok")], f"Stream.tla {n}")
             for tag, c in res.prints:
